@@ -76,7 +76,24 @@ CLAIMED["C11"] = dict(
     technique="CBMC function contracts (dfcc) + relational lemma harness with uninterpreted arithmetic on extracted C, SAT, all 24 orders",
     ref="6/C11")
 
+CLAIMED["C06"] = dict(
+    text="Proof for the clauses within reach: (RING, T = unsigned) on unit-determinant families M = L*U the REAL inverse() satisfies M*inverse(M) == inverse(M)*M == I for 2x2, the 3x3 cofactor path, the 3x3 affine fast path and the 4x4 affine branch - a wrong cofactor index or sign breaks the identity; (IEEE) determinant() == 0 implies inverse() returns the identity for every finite 2x2; in-place invert()/invert(bool) leave exactly what the value forms return (relational lemma units shared with C07, Matrix22 and Matrix33).",
+    note="Trusted: clang AST + cxx2c, cbmc, z3-new som, cvc5. Not covered: every accuracy / conditioning clause (floating-point error analysis), Gauss-Jordan numerics and zero-pivot return, the 4x4 general path, det==0 => identity beyond 2x2 (solver time-out), continuity across the affine switch.",
+    technique="polynomial identities over Z/2^32 on the extracted unsigned instantiation (cbmc + z3 som) and relational / IEEE lemma harnesses (cvc5)",
+    ref="6/C06, 10.3")
+CLAIMED["C14"] = dict(
+    text="Proof for three clauses: intersects(box, ray, ip) and findEntryAndExitPoints return false for every empty box; when the ray origin lies in a non-empty box intersects returns true with ip == origin (dfcc-enforced contracts with exact frames, arithmetic uninterpreted since only comparisons and copies matter); intersects(box, ray) is the boolean of the three-argument form for all finite inputs (IEEE, cvc5).",
+    note="Trusted: clang AST + cxx2c (differentially validated), cbmc, cvc5, minisat. The geometric core of the property (exact truth value, reported points in the box / on the ray, first point of contact) is NOT decided: the in-box lemma was attempted and timed out.",
+    technique="CBMC function contracts (dfcc) on extracted C + relational lemma harness, SAT / cvc5",
+    ref="6/C14, 10.3")
+
 NA = {
+    "C08": "the property is accuracy (ulps of length() and of normalised vectors): not expressible to the installed back ends (sqrt is uninterpreted; CBMC's own sqrt model times out). The structural remnants - zero vector stays zero / normalizeExc throws exactly for zero length / normalize == normalized - are decided under C07; length2()==dot(*this) is the function's literal body.",
+    "C09": "planned as RING obligations with uninterpreted sin/cos (DESIGN section 6) but not built in this revision; no check is registered, nothing is claimed.",
+    "C10": "planned as RING obligations on Quat<unsigned> (DESIGN section 6) but not built in this revision; the transcendental clauses (exp/log, axis-angle, slerp) are out of reach in any case.",
+    "C12": "factor recomposition, orthonormal residuals, Jacobi SVD / eigen convergence and Procrustes optimality are statements about iterative floating-point algorithms with sqrt/normalisation at every step; no contract expressible to CBMC states them without real-number error analysis (the exc-flag agreement of these wrappers would belong to C07 and is not built).",
+    "C15": "closest points, distances, reflections, plane / sphere / triangle intersection are metric statements through normalize, division and sqrt; the division-free fragments are too thin to stand for the property.",
+    "C16": "projection / depth / plane / culling consistency needs rational identities with divisions, tan/atan2, normalised plane equations and real-geometry inclusion arguments; only Exc/non-Exc agreement would be within reach (C07 family) and is not built.",
 }
 
 PENDING_REASON = "not yet brought under contract in this revision of /verif (see DESIGN.md section 6 for the plan); no check is registered, nothing is claimed"
